@@ -12,6 +12,6 @@ rm -rf "$SHADOW_GOROOT"
 ( cd "$ROOT/harness" && GOROOT=$SHADOW_GOROOT "$SHADOW_GOROOT/bin/go" build std )
 
 
-( cd "$ROOT/harness" && GOROOT=$SHADOW_GOROOT "$SHADOW_GOROOT/bin/go" build -o "$VERIF_CACHE/bin/osmonprobe" ./cmd/osmonprobe && VERIF_CACHE=$VERIF_CACHE "$VERIF_CACHE/bin/osmonprobe" )
+( cd "$ROOT/harness" && GOROOT=$SHADOW_GOROOT "$SHADOW_GOROOT/bin/go" build -tags verifshadow -o "$VERIF_CACHE/bin/osmonprobe" ./cmd/osmonprobe && VERIF_CACHE=$VERIF_CACHE "$VERIF_CACHE/bin/osmonprobe" )
 touch "$VERIF_CACHE/setup.ok"
 echo "setup: ok"
